@@ -6,9 +6,41 @@ use lopdf::{Document, IncrementalDocument, Object};
 use lopdf_conform::{gen, guard::guarded, io::*, rng::Rng, wire::*};
 use serde_json::{json, Value};
 
+/// bytes of payload (strings, names, stream contents) and number of values in an object
+fn payload(o: &Object, acc: &mut (usize, usize)) {
+    acc.1 += 1;
+    match o {
+        Object::String(b, _) | Object::Name(b) => acc.0 += b.len(),
+        Object::Array(a) => a.iter().for_each(|x| payload(x, acc)),
+        Object::Dictionary(d) => d.iter().for_each(|(k, v)| {
+            acc.0 += k.len();
+            payload(v, acc)
+        }),
+        Object::Stream(s) => {
+            acc.0 += s.content.len();
+            s.dict.iter().for_each(|(k, v)| {
+                acc.0 += k.len();
+                payload(v, acc)
+            });
+        }
+        _ => {}
+    }
+}
+
 fn save(doc: &mut Document) -> Result<Vec<u8>, String> {
     let mut out = Vec::new();
+    // No serialisation of a value needs more than 4 bytes per payload byte (octal escapes) plus a few dozen bytes per value
+    // (numbers, brackets, separators, object framing, one cross-reference entry): a file far beyond that cannot be what the
+    // document says, and is reported as such instead of being handed to TLC (whose heap it would exhaust).
+    let mut acc = (0usize, 0usize);
+    doc.objects.values().for_each(|o| payload(o, &mut acc));
+    doc.trailer.iter().for_each(|(k, v)| {
+        acc.0 += k.len();
+        payload(v, &mut acc)
+    });
+    let bound = 8 * acc.0 + 128 * acc.1 + 256 * (doc.objects.len() + 1) + 100_000;
     match guarded(|| doc.save_to(&mut out)) {
+        Ok(Ok(())) if out.len() > bound => Err(format!("oversize: {} bytes written for {} payload bytes in {} values", out.len(), acc.0, acc.1)),
         Ok(Ok(())) => Ok(out),
         Ok(Err(e)) => Err(format!("err:{e}")),
         Err(p) => Err(format!("panic:{p}")),
@@ -59,6 +91,31 @@ fn disturb(rng: &mut Rng) {
         }
         4 => {
             let _ = guarded(|| Document::load_mem(&[0x25, 0x50, 0x44, 0x46, 0x2d, 0xff, 0xfe, 0x00]));
+        }
+        _ => {}
+    }
+}
+
+/// largest sizes inside a document, per kind: [hex string, literal string, name, array, stream content]
+fn sizes(o: &Object, acc: &mut [usize; 5]) {
+    match o {
+        Object::String(b, lopdf::StringFormat::Hexadecimal) => acc[0] = acc[0].max(b.len()),
+        Object::String(b, _) => acc[1] = acc[1].max(b.len()),
+        Object::Name(n) => acc[2] = acc[2].max(n.len()),
+        Object::Array(a) => {
+            acc[3] = acc[3].max(a.len());
+            a.iter().for_each(|x| sizes(x, acc));
+        }
+        Object::Dictionary(d) => d.iter().for_each(|(k, v)| {
+            acc[2] = acc[2].max(k.len());
+            sizes(v, acc)
+        }),
+        Object::Stream(s) => {
+            acc[4] = acc[4].max(s.content.len());
+            s.dict.iter().for_each(|(k, v)| {
+                acc[2] = acc[2].max(k.len());
+                sizes(v, acc)
+            });
         }
         _ => {}
     }
@@ -122,13 +179,33 @@ fn record(args: &[String]) {
             doc.objects.insert((last, 0), Object::Stream(lopdf::Stream::new(lopdf::Dictionary::new(), body)));
             doc.max_id = last;
         }
+        // size boundaries of strings: every fifth document carries a hexadecimal and a literal string whose lengths
+        // walk through the power-of-two boundaries
+        if case % 5 == 3 {
+            let lens = [255usize, 256, 257, 511, 512, 513, 1023, 1024, 1025, 4095, 4096, 4097];
+            let (a, b) = (lens[(case as usize / 5) % lens.len()], lens[(case as usize / 5 * 7 + 3) % lens.len()]);
+            let last = doc.max_id + 1;
+            doc.objects.insert((last, 0), Object::Array(vec![
+                Object::String(gen::long_bytes(&mut rng, a), lopdf::StringFormat::Hexadecimal),
+                Object::String(gen::long_bytes(&mut rng, b), lopdf::StringFormat::Literal),
+            ]));
+            // ... and an array, a name and a stream content of boundary sizes
+            let c = [127usize, 128, 129, 255, 256, 257, 511, 512, 513][(case as usize / 5) % 9];
+            let mut d = lopdf::Dictionary::new();
+            d.set((0..c).map(|i| b"keyK"[i % 4]).collect::<Vec<u8>>(), Object::Array((0..c * 2).map(|i| Object::Integer(i as i64 - 300)).collect()));
+            doc.objects.insert((last + 1, 0), Object::Stream(lopdf::Stream::new(d, gen::long_bytes(&mut rng, c * 16 + (case as usize % 3)))));
+            doc.max_id = last + 1;
+        }
         let fmt = if case % 2 == 0 { "table" } else { "stream" };
         doc.reference_table.cross_reference_type =
             if fmt == "table" { XrefType::CrossReferenceTable } else { XrefType::CrossReferenceStream };
-        out.put(&json!({"ev": "Reset", "case": case}));
+        let mut sz = [0usize; 5];
+        doc.objects.values().for_each(|o| sizes(o, &mut sz));
+        out.put(&json!({"ev": "Reset", "case": case, "sizes": sz}));
         disturb(&mut rng);
         let mut cur = doc;
         let mut first_bytes: Option<Vec<u8>> = None;
+        let mut saved_mem: Option<Document> = None;
         for cycle in 1..=2 {
             let before = doc_to_tla(&cur);
             match save(&mut cur) {
@@ -136,6 +213,7 @@ fn record(args: &[String]) {
                     out.put(&json!({"ev": "Save", "case": case, "cycle": cycle, "fmt": fmt, "doc": before, "res": "ok", "bytes": bytes_to_json(&bytes)}));
                     if cycle == 1 {
                         first_bytes = Some(bytes.clone());
+                        saved_mem = Some(cur.clone());
                     }
                     match load(&bytes) {
                         Ok(d) => {
@@ -151,6 +229,41 @@ fn record(args: &[String]) {
                 Err(e) => {
                     out.put(&json!({"ev": "Save", "case": case, "cycle": cycle, "fmt": fmt, "doc": before, "res": e, "bytes": Value::Array(vec![])}));
                     break;
+                }
+            }
+        }
+        // the SAME in-memory document is saved a second time, untouched or after an edit (saving must not leave
+        // state behind in the document that the next save trips over)
+        if let Some(mut m) = saved_mem {
+            let edited = guarded(|| {
+                match case % 4 {
+                    0 => {
+                        m.add_object(Object::Integer(7));
+                    }
+                    1 => {}
+                    2 => m.renumber_objects(),
+                    _ => {
+                        m.add_object(Object::string_literal("second save"));
+                        m.add_object(Object::Name(b"Again".to_vec()));
+                    }
+                }
+                m
+            });
+            if let Ok(mut m) = edited {
+                let mut nums: Vec<u32> = m.objects.keys().map(|k| k.0).collect();
+                nums.sort();
+                if nums.windows(2).all(|w| w[0] != w[1]) && nums.last().map_or(true, |x| *x <= m.max_id) {
+                    let before = doc_to_tla(&m);
+                    match save(&mut m) {
+                        Ok(bytes) => {
+                            out.put(&json!({"ev": "Save", "case": case, "cycle": 4, "fmt": fmt, "doc": before, "res": "ok", "bytes": bytes_to_json(&bytes)}));
+                            match load(&bytes) {
+                                Ok(d2) => out.put(&json!({"ev": "Load", "case": case, "cycle": 4, "res": "ok", "doc": doc_to_tla(&d2)})),
+                                Err(e) => out.put(&json!({"ev": "Load", "case": case, "cycle": 4, "res": e, "doc": doc_to_tla(&Document::new())})),
+                            }
+                        }
+                        Err(e) => out.put(&json!({"ev": "Save", "case": case, "cycle": 4, "fmt": fmt, "doc": before, "res": e, "bytes": Value::Array(vec![])})),
+                    }
                 }
             }
         }
@@ -237,6 +350,7 @@ fn pairs(args: &[String]) {
 
 fn main() {
     let args: Vec<String> = std::env::args().collect();
+    lopdf_conform::gen::set_long(true);
     match args.get(1).map(String::as_str) {
         Some("record") => record(&args),
         Some("pairs") => pairs(&args),
